@@ -148,7 +148,7 @@ def make_scenarios(rng, tier):
 def run(tier, seed, which="C01"):
     V = kv.Verdict("C01", tier, seed)
     V10 = kv.Verdict("C10", tier, seed)
-    wd = kv.workdir("c01")
+    wd = kv.workdir("c01" if which == "C01" else "c10")      # C01 and C10 may be run side by side
     rng = random.Random(seed)
     # --- M1: the design
     for cfg in (["MC_Weave_q.cfg"] if tier == "quick" else ["MC_Weave_q.cfg", "MC_Weave_t.cfg", "MC_Weave_t3.cfg"]):
